@@ -33,6 +33,8 @@ type Rec struct {
 	F    float64 `json:"f,omitempty"`
 	D    int64   `json:"d"` // secondary int field for non-key predicates
 	Pad  int     `json:"pad,omitempty"`
+	// Extra is the ZSON text of an additional field f ("" = absent).
+	Extra string `json:"f,omitempty"`
 }
 
 // PoolSpec is the harness's description of a pool.
@@ -97,6 +99,9 @@ func (r Rec) ZSON(spec *PoolSpec) string {
 		pad = fmt.Sprintf(",pad:%q", strings.Repeat("p", r.Pad))
 	}
 	rest := fmt.Sprintf("u:%d,d:%d%s", r.U, r.D, pad)
+	if r.Extra != "" {
+		rest += ",f:" + r.Extra
+	}
 	if r.Kind == KMissing {
 		if spec.KeyPath == "n.k" {
 			return "{n:{x:1}," + rest + "}"
